@@ -145,6 +145,8 @@ def run_property(prop, tier, seed, jobs, replay=None):
 
     if not replay:
         for name, (minimum, why) in sorted(reqs.items()):
+            if counters.get('anchor_missing.' + name, 0):
+                continue  # line anchor not present in this source tree: counter is evidence only
             if counters.get(name, 0) < minimum:
                 inconclusive.append('monitor/reach requirement not met: %s = %d < %d (%s)'
                                     % (name, counters.get(name, 0), minimum, why))
